@@ -731,6 +731,221 @@ Proof.
   intros E; inversion E; subst. split; [discriminate | assumption].
 Qed.
 
+(* ------------------------------------------------------------------ SplitShellStrings, exactness *)
+(* direct-style reading of the loop: [f] is the field collected so far ([] = none) *)
+Definition curf (cur : option bytes) : bytes := match cur with Some f => rev f | None => [] end.
+Fixpoint tokens (s : bytes) (st : sstate) (f : bytes) : list bytes :=
+  match s with
+  | [] => if is_empty f then [] else [f]
+  | c :: r =>
+      let (sp, st') := is_split_char st c in
+      if sp then (if is_empty f then tokens r st' [] else f :: tokens r st' [])
+      else tokens r st' (f ++ [c])
+  end.
+Fixpoint final_state (s : bytes) (st : sstate) : sstate :=
+  match s with [] => st | c :: r => final_state r (snd (is_split_char st c)) end.
+(* the characters that are not consumed as delimiters, in order *)
+Fixpoint kept (s : bytes) (st : sstate) : bytes :=
+  match s with
+  | [] => []
+  | c :: r => let (sp, st') := is_split_char st c in if sp then kept r st' else c :: kept r st'
+  end.
+
+Lemma rev_nonempty {A} (f : list A) : f <> [] -> is_empty (rev f) = false.
+Proof. destruct f as [|a f]; [congruence|]. intros _. cbn [rev]. destruct (rev f); reflexivity. Qed.
+
+Lemma shell_loop_tokens s : forall st cur acc, (forall f, cur = Some f -> f <> []) ->
+  shell_loop s st cur acc = (rev acc ++ tokens s st (curf cur), final_state s st).
+Proof.
+  induction s as [|c r IH]; intros st cur acc Hcur; cbn [shell_loop tokens final_state].
+  - destruct cur as [f|]; cbn [curf].
+    + rewrite (rev_nonempty f (Hcur f eq_refl)). cbn [rev]. reflexivity.
+    + cbn [is_empty]. rewrite app_nil_r. reflexivity.
+  - destruct (is_split_char st c) as [sp st'] eqn:E. cbn [snd]. destruct sp.
+    + destruct cur as [f|]; cbn [curf].
+      * rewrite (rev_nonempty f (Hcur f eq_refl)). rewrite IH by discriminate. cbn [rev curf].
+        rewrite <- app_assoc. reflexivity.
+      * cbn [is_empty]. rewrite IH by discriminate. reflexivity.
+    + destruct cur as [f|]; cbn [curf].
+      * rewrite IH by (intros f' H; inversion H; discriminate). cbn [curf rev]. reflexivity.
+      * rewrite IH by (intros f' H; inversion H; discriminate). cbn [curf rev app]. reflexivity.
+Qed.
+
+Definition st0 : sstate := mkss 0 0.
+Definition quote_open (st : sstate) : bool := (N.eqb (ss_quote st) 39 || N.eqb (ss_quote st) 34)%bool.
+
+(* SplitShellStrings as a function of the direct-style tokenizer *)
+Theorem shell_split_tokens s :
+  shell_split s = if quote_open (final_state s st0) then SErr
+                  else if is_empty (tokens s st0 []) then SErr else SOk (tokens s st0 []).
+Proof.
+  unfold shell_split. destruct (shell_loop s _ None []) as [strs st] eqn:El.
+  pose proof (shell_loop_tokens s (mkss 0 0) None [] ltac:(discriminate)) as H.
+  pose proof (eq_trans (eq_sym El) H) as Heq. cbn [rev app curf] in Heq. inversion Heq; subst. reflexivity.
+Qed.
+
+(* the fields, concatenated, are exactly the characters that were not consumed as delimiters *)
+Lemma tokens_concat s : forall st f, concat (tokens s st f) = f ++ kept s st.
+Proof.
+  induction s as [|c r IH]; intros st f; cbn [tokens kept].
+  - destruct f; cbn [is_empty concat app]; [reflexivity | rewrite !app_nil_r; reflexivity].
+  - destruct (is_split_char st c) as [sp st']. destruct sp.
+    + destruct f as [|a f]; cbn [is_empty concat]; rewrite IH; reflexivity.
+    + rewrite IH, <- app_assoc. reflexivity.
+Qed.
+
+Definition good_state (st : sstate) : Prop := ss_quote st = 0%N \/ ss_quote st = 34%N \/ ss_quote st = 39%N.
+
+(* only quotes, backslashes and white space are ever consumed *)
+Lemma split_is_delim st c st' : good_state st -> is_split_char st c = (true, st') ->
+  c = 34%N \/ c = 39%N \/ c = 92%N \/ is_space c = true.
+Proof.
+  unfold good_state, is_split_char. intros Hg H.
+  destruct (negb (N.eqb (ss_last st) 92) && negb (N.eqb (ss_quote st) 0) && N.eqb c (ss_quote st))%bool eqn:E1.
+  - apply andb_true_iff in E1 as [E1 E2]. apply andb_true_iff in E1 as [_ E1]. apply N.eqb_eq in E2.
+    apply negb_true_iff, N.eqb_neq in E1. destruct Hg as [Hg|[Hg|Hg]]; [congruence| |]; rewrite Hg in E2; tauto.
+  - destruct (negb (N.eqb (ss_last st) 92) && N.eqb (ss_quote st) 0 && (N.eqb c 34 || N.eqb c 39))%bool eqn:E2.
+    + apply andb_true_iff in E2 as [_ E2]. apply orb_true_iff in E2 as [E2|E2]; apply N.eqb_eq in E2; tauto.
+    + destruct (negb (N.eqb (ss_quote st) 0)); [discriminate|].
+      assert (H1 : (N.eqb c 92 || is_space c)%bool = true) by congruence.
+      apply orb_true_iff in H1 as [H1|H1]; [apply N.eqb_eq in H1; tauto | tauto].
+Qed.
+
+Lemma good_state_step st c : good_state st -> good_state (snd (is_split_char st c)).
+Proof.
+  unfold good_state, is_split_char. intros Hg.
+  destruct (negb (N.eqb (ss_last st) 92) && negb (N.eqb (ss_quote st) 0) && N.eqb c (ss_quote st))%bool; [cbn [snd ss_quote]; tauto|].
+  destruct (negb (N.eqb (ss_last st) 92) && N.eqb (ss_quote st) 0 && (N.eqb c 34 || N.eqb c 39))%bool eqn:E2.
+  - cbn [snd ss_quote]. apply andb_true_iff in E2 as [_ E2]. apply orb_true_iff in E2 as [E2|E2]; apply N.eqb_eq in E2; tauto.
+  - destruct (negb (N.eqb (ss_quote st) 0)); cbn [snd ss_quote]; exact Hg.
+Qed.
+
+Definition is_delim (c : N) : bool := (N.eqb c 34 || N.eqb c 39 || N.eqb c 92 || is_space c)%bool.
+(* [t] is [s] with some delimiter characters deleted *)
+Inductive dsub : bytes -> bytes -> Prop :=
+  | dsub_nil : dsub [] []
+  | dsub_keep c s t : dsub s t -> dsub (c :: s) (c :: t)
+  | dsub_drop c s t : is_delim c = true -> dsub s t -> dsub (c :: s) t.
+
+Lemma kept_dsub s : forall st, good_state st -> dsub s (kept s st).
+Proof.
+  induction s as [|c r IH]; intros st Hg; cbn [kept]; [constructor|].
+  pose proof (good_state_step st c Hg) as Hg'.
+  destruct (is_split_char st c) as [sp st'] eqn:E. cbn [snd] in Hg'. destruct sp.
+  - apply dsub_drop; [|apply IH; exact Hg'].
+    destruct (split_is_delim st c st' Hg E) as [->|[->|[->|H]]]; try reflexivity.
+    unfold is_delim. rewrite H. rewrite !orb_true_r. reflexivity.
+  - apply dsub_keep. apply IH. exact Hg'.
+Qed.
+
+(* nothing is invented or reordered: the concatenated fields are the input minus delimiter characters *)
+Theorem shell_split_preserves s l : shell_split s = SOk l -> dsub s (concat l).
+Proof.
+  rewrite shell_split_tokens. destruct (quote_open _); [discriminate|].
+  destruct (is_empty _); [discriminate|]. intros H; inversion H; subst.
+  rewrite tokens_concat. cbn [app]. apply kept_dsub. left. reflexivity.
+Qed.
+
+(* an unterminated quote is an error *)
+Theorem shell_split_open_quote s : quote_open (final_state s st0) = true -> shell_split s = SErr.
+Proof. intros H. rewrite shell_split_tokens, H. reflexivity. Qed.
+
+(* without quotes and backslashes SplitShellStrings is strings.Fields (ASCII white space) *)
+Definition plain (s : bytes) : bool := forallb (fun c => negb (N.eqb c 34 || N.eqb c 39 || N.eqb c 92)) s.
+Fixpoint split_ws (s f : bytes) : list bytes :=
+  match s with
+  | [] => if is_empty f then [] else [f]
+  | c :: r => if is_space c then (if is_empty f then split_ws r [] else f :: split_ws r [])
+              else split_ws r (f ++ [c])
+  end.
+
+Lemma tokens_plain s : forall st f, plain s = true -> ss_quote st = 0%N ->
+  tokens s st f = split_ws s f /\ ss_quote (final_state s st) = 0%N.
+Proof.
+  induction s as [|c r IH]; intros st f Hp Hq; cbn [tokens split_ws final_state]; [auto|].
+  cbn [plain forallb] in Hp. apply andb_true_iff in Hp as [Hc Hr]. fold (plain r) in Hr.
+  apply negb_true_iff in Hc.
+  assert (E : is_split_char st c = (is_space c, mkss 0 c)).
+  { unfold is_split_char. rewrite Hq. cbn [N.eqb negb andb].
+    rewrite andb_false_r. cbn [andb].
+    apply orb_false_iff in Hc as [Hc H92]. rewrite Hc, andb_false_r. rewrite H92. reflexivity. }
+  rewrite E. cbn [snd]. destruct (is_space c).
+  - destruct (is_empty f); [apply IH; auto|]. destruct (IH (mkss 0 c) [] Hr eq_refl) as [H1 H2]. rewrite H1. auto.
+  - apply IH; auto.
+Qed.
+
+Theorem shell_split_plain s : plain s = true ->
+  shell_split s = if is_empty (split_ws s []) then SErr else SOk (split_ws s []).
+Proof.
+  intros Hp. rewrite shell_split_tokens. destruct (tokens_plain s st0 [] Hp eq_refl) as [H1 H2].
+  unfold quote_open. rewrite H2, H1. reflexivity.
+Qed.
+
+(* Fields: every field is non-empty and free of white space, and the fields are the non-space characters *)
+Lemma split_ws_fields s : forall f, forallb (fun c => negb (is_space c)) f = true ->
+  Forall (fun t => t <> [] /\ forallb (fun c => negb (is_space c)) t = true) (split_ws s f)
+  /\ concat (split_ws s f) = f ++ filter (fun c => negb (is_space c)) s.
+Proof.
+  induction s as [|c r IH]; intros f Hf; cbn [split_ws filter].
+  - destruct f as [|a f]; cbn [is_empty concat]; split; try constructor; try (rewrite ?app_nil_r; reflexivity).
+    + split; [discriminate | exact Hf].
+    + constructor.
+  - destruct (is_space c) eqn:Ec; cbn [negb].
+    + destruct (IH [] eq_refl) as [H1 H2]. destruct f as [|a f]; cbn [is_empty].
+      * split; [exact H1 | exact H2].
+      * split; [constructor; [split; [discriminate | exact Hf] | exact H1] | cbn [concat]; rewrite H2; reflexivity].
+    + assert (Hf' : forallb (fun c => negb (is_space c)) (f ++ [c]) = true).
+      { rewrite forallb_app, Hf. cbn [forallb]. rewrite Ec. reflexivity. }
+      destruct (IH (f ++ [c]) Hf') as [H1 H2]. split; [exact H1|]. rewrite H2, <- app_assoc. reflexivity.
+Qed.
+
+(* inside a quote nothing splits until the closing quote; the quoted text is one field *)
+Lemma in_quote_step q l c : (q = 34 \/ q = 39)%N -> l <> 92%N -> c <> q ->
+  is_split_char (mkss q l) c = (false, mkss q c).
+Proof.
+  intros Hq Hl Hc. unfold is_split_char. cbn [ss_quote ss_last].
+  assert (E1 : N.eqb l 92 = false) by (apply N.eqb_neq; exact Hl).
+  assert (E2 : N.eqb c q = false) by (apply N.eqb_neq; exact Hc).
+  assert (E3 : N.eqb q 0 = false) by (destruct Hq; subst; reflexivity).
+  rewrite E1, E2, E3. reflexivity.
+Qed.
+
+Lemma close_quote_step q l : (q = 34 \/ q = 39)%N -> l <> 92%N ->
+  is_split_char (mkss q l) q = (true, mkss 0 l).
+Proof.
+  intros Hq Hl. unfold is_split_char. cbn [ss_quote ss_last].
+  assert (E1 : N.eqb l 92 = false) by (apply N.eqb_neq; exact Hl).
+  assert (E3 : N.eqb q 0 = false) by (destruct Hq; subst; reflexivity).
+  rewrite E1, E3, N.eqb_refl. reflexivity.
+Qed.
+
+Lemma tokens_in_quote q body : (q = 34 \/ q = 39)%N -> ~ In q body -> ~ In 92%N body ->
+  forall l f rest, l <> 92%N ->
+  exists l', l' <> 92%N
+    /\ tokens (body ++ rest) (mkss q l) f = tokens rest (mkss q l') (f ++ body)
+    /\ final_state (body ++ rest) (mkss q l) = final_state rest (mkss q l').
+Proof.
+  intros Hq. induction body as [|c body IH]; intros Hnq Hn92 l f rest Hl.
+  - exists l. rewrite app_nil_r. auto.
+  - cbn [app tokens final_state].
+    assert (Hc : c <> q) by (intros ->; apply Hnq; left; reflexivity).
+    assert (Hc92 : c <> 92%N) by (intros ->; apply Hn92; left; reflexivity).
+    rewrite (in_quote_step q l c Hq Hl Hc). cbn [snd].
+    destruct (IH (fun H => Hnq (or_intror H)) (fun H => Hn92 (or_intror H)) c (f ++ [c]) rest Hc92) as (l' & Hl' & Ht & Hf).
+    exists l'. rewrite Ht, Hf, <- app_assoc. auto.
+Qed.
+
+Theorem shell_split_quoted q body : (q = 34 \/ q = 39)%N -> body <> [] -> ~ In q body -> ~ In 92%N body ->
+  shell_split (q :: body ++ [q]) = SOk [body].
+Proof.
+  intros Hq Hne Hnq Hn92. rewrite shell_split_tokens. cbn [tokens final_state].
+  assert (E0 : is_split_char st0 q = (true, mkss q 0)) by (destruct Hq; subst; reflexivity).
+  rewrite E0. cbn [snd is_empty].
+  destruct (tokens_in_quote q body Hq Hnq Hn92 0%N [] [q] ltac:(discriminate)) as (l' & Hl' & Ht & Hf).
+  rewrite Ht, Hf. cbn [tokens final_state app]. rewrite (close_quote_step q l' Hq Hl'). cbn [snd].
+  destruct body as [|b body]; [congruence|]. cbn [is_empty tokens]. unfold quote_open. cbn [ss_quote N.eqb orb]. reflexivity.
+Qed.
+
 (* ------------------------------------------------------------------ options.Parse *)
 Lemma bytes_cmp_eq a : forall b, bytes_cmp a b = Eq <-> a = b.
 Proof.
